@@ -208,16 +208,17 @@ CHECKS['C12'] = dict(
 )
 
 
-def c05_units(tier):
+def c05_units(tier, bmode='exact', owner='C05', plan=None):
     import subprocess, os
     from driver import VERIF, BUILD
-    gdir = os.path.join(BUILD, 'C05', 'gen')
-    plan = [('k1', 12), ('fixed', 2)] if tier == 'quick' else [('k1', 12), ('fixed', 2), ('k2', 160), ('red3', 320)]
+    gdir = os.path.join(BUILD, owner, 'gen')
+    if plan is None:
+        plan = [('k1', 12), ('fixed', 2)] if tier == 'quick' else [('k1', 12), ('fixed', 2), ('k2', 160), ('red3', 320)]
     us = []
     for mode, ntus in plan:
         subprocess.run(['python3', os.path.join(VERIF, 'gen', 'gen_exprs.py'), gdir, mode, str(ntus)], check=True, stdout=subprocess.DEVNULL)
         for i in range(ntus):
-            us.append(unit('%s-%03d' % (mode, i), os.path.join(gdir, '%s_%03d.cpp' % (mode, i)), 'exact', shards=1))
+            us.append(unit('%s-%03d' % (mode, i), os.path.join(gdir, '%s_%03d.cpp' % (mode, i)), bmode, shards=1))
     return us
 
 
@@ -265,4 +266,68 @@ CHECKS['C14'] = dict(CHECKS['C10'],
     technique='explicit-state breadth-first search over all histories of ~85 public operations on a pool of live library objects (fixpoint, canonical state = shapes + copy-provenance partition); around every transition the observable state of every object and grid is snapshotted through the public API and compared',
     level_text='Same pool, alphabet and search as C10. Before every transition a deep snapshot (window, coefficients, grid points, four evaluations) of every live object, every fixed operand and every grid is taken; afterwards every object other than the explicit target of an in-place operator or assignment is identical, a throwing call changes nothing, copies equal their source, self-assignment keeps the value, mutating a copy leaves the original alone (copy-then-mutate operations and 2-step paths of the search).',
     units=pool_units('C14'),
+)
+
+
+def c09_units(tier):
+    th = tier == 'thorough'
+    us = []
+    def add(prefix, src, shards=NCPU, args=None, flags=None):
+        us.append(unit(prefix, src, 'san', shards=shards, args=args or [], flags=flags or []))
+    add('c13-accessors', 'checks/c13_support.cpp')
+    add('c02', 'checks/c02_eval.cpp')
+    add('c03', 'checks/c03_arith.cpp')
+    add('c04', 'checks/c04_primitive.cpp')
+    add('c06', 'checks/c06_bilinear.cpp')
+    add('c07', 'checks/c07_linear.cpp')
+    add('c08', 'checks/c08_grids.cpp')
+    add('c01', 'checks/c01_generator.cpp')
+    add('c11', 'checks/c11_validation.cpp')
+    add('c12', 'checks/c12_interp.cpp')
+    add('c12-eigen', 'checks/c12_interp.cpp', flags=['-DVF_EIGEN'])
+    add('c15', 'checks/c15_predicates.cpp')
+    add('c10-pool', 'checks/c10_pool.cpp', shards=1, args=['--prop', 'C10', '--levels', '5' if th else '4', '--levels2', '4'])
+    add('c17-n2', 'checks/c17_quadrature.cpp', flags=['-DVF_N=2'])
+    add('c17-n3-ld', 'checks/c17_quadrature.cpp', flags=['-DVF_N=3', '-DVF_LONG_DOUBLE'])
+    for u in c05_units(tier, 'san', 'C09', [('k1', 12), ('fixed', 2)] + ([('k2', 160)] if th else [])):
+        u['name'] = 'c05-' + u['name']
+        us.append(u)
+    return us
+
+
+def c09_filter(v):
+    k = v['key']
+    return k.startswith('crash:') or k in ('uninit', 'divzero') or k.endswith(':solver-index') or k == 'solver-index' or k.endswith('invalid-result')
+
+
+CHECKS['C09'] = dict(
+    title='No operation touches memory outside its objects or runs into undefined behaviour',
+    level='exploration',
+    engine='E1/E2/E3 under sanitizers',
+    technique='the bounded-exhaustive input, program and history spaces of the other checks re-executed on the real code built with AddressSanitizer + UndefinedBehaviorSanitizer (no recovery) + libstdc++ debug mode (checked iterators and subscripts) and the poisoned exact scalar as uninitialised-read detector; plus an exhaustive sweep of the bounds-checked accessors over index values incl. the extremes of size_t',
+    level_text='Every case of the quick (thorough: thorough for the cheap ones, plus all two-node expression trees) spaces of C01-C08, C10-C13, C15, C17 runs once more under ASan+UBSan+_GLIBCXX_DEBUG; a sanitizer report, a debug-mode assertion, a signal, a read of a default-constructed (uninitialised) scalar, a division by zero or an out-of-range solver access is a violation and names the case in flight. Checked accessors (Grid::at, Support::at, absoluteFromRelative, relativeFromAbsolute, intervalIndexFromAbsolute) are swept over every window x every index in {0..n+2, 2^63-1..2^63+1, 2^64-1-k, values that wrap start+index}.',
+    level_note='Trusted: the sanitizer runtimes of g++ 12, libstdc++ debug mode. Only executed paths are checked; MSan is not available (no instrumented libstdc++), replaced by the poisoned scalar, which sees every T-typed read but not reads of uninitialised indices. Functional mismatches found by these harnesses belong to their own properties and are ignored here (counted in counters).',
+    units=c09_units,
+    viol_filter=c09_filter,
+    deadline=dict(quick=900, thorough=2700),
+    rule='cases are those of the listed harnesses (see their rules), executed in the sanitizer build; non-trivial as defined there.',
+    bounds=dict(quick='quick spaces of 14 harnesses incl. 214 expression trees and the pool search to depth 4', thorough='thorough spaces, 10302 expression trees, pool search to depth 5'),
+    guards=dict(classes=['at:notcontained', 'abs:notcontained', 'ivl:notcontained', 'rel:notcontained', 'tree:with-factor', 'factor:interval:ends-inside', 'A=move(A):value', 'x:shared-gridpoint',
+                         'mul:intervalxinterval:overlaps', 'common:intervalxinterval:overlaps', 'Grid:invalid', 'solved:default:whole', 'valid:functions:interior-repeat']),
+    assumptions=['a defect that neither crashes, nor trips a sanitizer or checked-STL assertion, nor reads an uninitialised scalar on an executed path is invisible to this check'],
+)
+
+CHECKS['C17'] = dict(
+    title='Numerical quadrature matches the analytic forms where Gauss-Legendre is exact',
+    level='exploration',
+    technique='bounded-exhaustive enumeration of (quadrature size, weight degree, order pair, window pair, coefficient pattern) on the real integrate<n> in double and long double; oracle = exact rational integral over the common intervals with a 2^20 eps bound relative to the sum of absolute values of the terms, and exact zero without a common interval',
+    level_text='integrate<n>, n in {1,2,3,4,6} (long double: {2,3,6}; thorough 1..8 for both), weights x^0..x^3 and a generic cubic, 7 (13) order pairs from 0..3, every ordered window pair of two 5-point well-scaled dyadic grids, 3 (4) coefficient patterns, double and long double. Whenever 2n-1 >= order1+order2+d the result is within 2^20 eps mag of the exact integral, as is the analytic BilinearForm with the weight as operator; without a common interval the result is exactly 0. Cases below the exactness bound are executed and counted (the comparison can and does fail there).',
+    level_note='Tolerance-based evidence on an enumerated alphabet (weakest kind in this design): rounding claims cannot be decided exactly. Trusted: GMP, exact conversion of floating results, boost::math::quadrature::gauss as shipped. mag is an upper bound of the sum of absolute quadrature terms computed in rationals.',
+    units=lambda tier: [unit('d-n%d' % n, 'checks/c17_quadrature.cpp', 'exact', shards=4, flags=['-DVF_N=%d' % n]) for n in ([1, 2, 3, 4, 6] if tier == 'quick' else range(1, 9))] +
+                       [unit('ld-n%d' % n, 'checks/c17_quadrature.cpp', 'exact', shards=4, flags=['-DVF_N=%d' % n, '-DVF_LONG_DOUBLE']) for n in ([2, 3, 6] if tier == 'quick' else range(1, 9))] +
+                       [unit('d-chk-n%d' % n, 'checks/c17_quadrature.cpp', 'chk', shards=4, flags=['-DVF_N=%d' % n]) for n in ([3] if tier == 'quick' else [3, 5])],
+    rule='cases = (type, grid, n, weight, order pair, window pair, pattern). Non-trivial = exactness regime with a non-zero exact integral.',
+    bounds=dict(quick='n in {1,2,3,4,6}; 5 weights; 7 order pairs; 2 grids x 256 window pairs x 3 patterns', thorough='n = 1..8; 13 order pairs; 4 patterns'),
+    guards=dict(classes=['exact-regime', 'inexact-regime', 'nocommon'], counters=['inexact_regime_differs']),
+    assumptions=['inputs outside the alphabet are not covered; this is enumeration evidence for a numerical claim'],
 )
